@@ -6,6 +6,7 @@ use std::panic::catch_unwind;
 
 mod statuslist;
 mod jws;
+mod docops;
 mod storage;
 mod coll;
 mod jwk;
@@ -96,6 +97,7 @@ fn main() {
     "jwk" => jwk::jwk(&cex),
     "collections" => coll::collections(&cex),
     "storage_faults" => storage::faults(&cex),
+    "document_ops" => docops::document_ops(&cex),
     "kani" => kani_replay(&cex),
     "selftest" => selftest(),
     _ => Err(format!("unknown scenario {scenario}")),
